@@ -633,12 +633,13 @@ func nonTrivialConc(lines, replies []string) bool {
 }
 
 // ---------------------------------------------------------------------------------------
-// directed schedules of the rotation protocol
+// directed schedules of the add / rotate / flush protocol of the store
 
 type schedAct struct {
-	A string `json:"a"` // pick | check | write | rotate | flush | state
+	A string `json:"a"` // add | hold | spawn | release | rotate | flush | fsnap | fwrite | fdrop | state
 	T int    `json:"t,omitempty"`
 	D uint32 `json:"d,omitempty"`
+	W string `json:"w,omitempty"` // spawn: rotate | flush | add
 }
 
 type schedCase struct {
@@ -647,44 +648,71 @@ type schedCase struct {
 
 func genSched(r *core.Rand, tier string) *schedCase {
 	c := &schedCase{}
-	n := r.Range(4, 14)
+	n := r.Range(4, 16)
 	if tier == "thorough" {
-		n = r.Range(4, 30)
+		n = r.Range(4, 36)
 	}
-	phase := map[int]int{} // thread → 0 idle, 1 picked, 2 checked
 	doc := uint32(100)
+	holding := false
+	nsp := 0
+	fl := map[int]int{} // flusher → 0 idle, 1 parked at :next, 2 parked at :flushed
 	for i := 0; i < n; i++ {
-		switch r.Pick(6, 2, 2, 1) {
-		case 0:
-			t := r.Range(1, 3)
-			switch phase[t] {
-			case 0:
-				doc++
-				c.Acts = append(c.Acts, schedAct{A: "pick", T: t, D: doc})
-				phase[t] = 1
-			case 1:
-				c.Acts = append(c.Acts, schedAct{A: "check", T: t})
-				phase[t] = 2
-			case 2:
-				c.Acts = append(c.Acts, schedAct{A: "write", T: t})
-				phase[t] = 0
+		if holding {
+			if nsp < 2 && r.Chance(0.6) {
+				w := []string{"rotate", "flush", "add"}[r.Intn(3)]
+				a := schedAct{A: "spawn", W: w}
+				if w == "add" {
+					doc++
+					a.D = doc
+				}
+				c.Acts = append(c.Acts, a)
+				nsp++
+			} else {
+				c.Acts = append(c.Acts, schedAct{A: "release", T: 1})
+				holding = false
 			}
+			continue
+		}
+		switch r.Pick(5, 3, 2, 2, 5, 2) {
+		case 0:
+			doc++
+			c.Acts = append(c.Acts, schedAct{A: "add", T: r.Range(1, 3), D: doc})
 		case 1:
-			c.Acts = append(c.Acts, schedAct{A: "rotate"})
+			doc++
+			c.Acts = append(c.Acts, schedAct{A: "hold", T: 1, D: doc})
+			holding, nsp = true, 0
 		case 2:
-			c.Acts = append(c.Acts, schedAct{A: "flush"})
+			c.Acts = append(c.Acts, schedAct{A: "rotate"})
 		case 3:
+			c.Acts = append(c.Acts, schedAct{A: "flush"})
+		case 4:
+			f := r.Range(1, 2)
+			switch fl[f] {
+			case 0:
+				c.Acts = append(c.Acts, schedAct{A: "fsnap", T: f})
+				fl[f] = 1 // may turn out empty; the executor skips what does not apply
+			case 1:
+				c.Acts = append(c.Acts, schedAct{A: "fwrite", T: f})
+				fl[f] = 2
+			case 2:
+				c.Acts = append(c.Acts, schedAct{A: "fdrop", T: f})
+				fl[f] = 1
+			}
+		case 5:
 			c.Acts = append(c.Acts, schedAct{A: "state"})
 		}
 	}
 	return c
 }
 
+// schedThread is a goroutine the schedule controls: it reports every yield point it reaches
+// (or "" when its operation returned) on arrive and continues when rel is signalled.
 type schedThread struct {
-	arrive chan string // yield point name, or "" when the add returned
+	arrive chan string
 	rel    chan struct{}
 	err    error
-	phase  int // 1 = blocked after pick, 2 = blocked after check, 0 = finished
+	stops  map[string]bool
+	free   atomic.Bool // set at cleanup: pass every yield point
 }
 
 var (
@@ -724,29 +752,69 @@ func execSched(c *schedCase) []string {
 		return append(lines, "op panic open: "+err.Error(), "end")
 	}
 	comet.VerifSetPointHandler(func(name string) {
-		if name != "memtableQueue:addWithID:unlocked" && name != "memtable:addWithID:checked" {
-			return
-		}
 		if th, ok := schedThreads.Load(goid()); ok {
 			t := th.(*schedThread)
-			t.arrive <- name
-			<-t.rel
+			if t.stops[name] && !t.free.Load() {
+				t.arrive <- name
+				<-t.rel
+			}
 		}
 	})
-	threads := map[int]*schedThread{}
-	defer func() {
-		comet.VerifSetPointHandler(nil)
-		st.Close()
-	}()
-	wait := func(t *schedThread) string {
+	// start runs f on a controlled goroutine
+	start := func(stops []string, f func() error) *schedThread {
+		th := &schedThread{arrive: make(chan string, 1), rel: make(chan struct{}), stops: map[string]bool{}}
+		for _, s := range stops {
+			th.stops[s] = true
+		}
+		ready := make(chan struct{})
+		go func() {
+			id := goid()
+			schedThreads.Store(id, th)
+			close(ready)
+			defer schedThreads.Delete(id)
+			defer func() {
+				if r := recover(); r != nil {
+					th.err = fmt.Errorf("panic: %v", r)
+				}
+				th.arrive <- ""
+			}()
+			th.err = f()
+		}()
+		<-ready
+		return th
+	}
+	wait := func(t *schedThread, d time.Duration) string {
 		select {
 		case n := <-t.arrive:
 			return n
-		case <-time.After(20 * time.Second):
-			return "HANG"
+		case <-time.After(d):
+			return "TIMEOUT"
 		}
 	}
-	queueLen := func() int { return len(st.VerifState().Memtables) }
+	var holder *schedThread
+	type spawnedOp struct {
+		th  *schedThread
+		w   string
+		d   uint32
+		fin bool
+	}
+	var spawned []*spawnedOp
+	flushers := map[int]*schedThread{}
+	flPhase := map[int]int{}
+	defer func() {
+		// never leave a goroutine blocked behind
+		if holder != nil {
+			holder.free.Store(true)
+			close(holder.rel)
+		}
+		for _, f := range flushers {
+			f.free.Store(true)
+			close(f.rel)
+		}
+		comet.VerifSetPointHandler(nil)
+		time.Sleep(5 * time.Millisecond)
+		st.Close()
+	}()
 	state := func() string {
 		s := st.VerifState()
 		var q []string
@@ -770,83 +838,153 @@ func execSched(c *schedCase) []string {
 		}
 		return fmt.Sprintf("q=%s|mut=%s|seg=%d", qs, mut, seg)
 	}
+	addDoc := func(d uint32) error { return st.AddWithID(d, []float32{1, 2}, "", nil) }
+	const adderStop = "memtable:addWithID:checked"
 	step := func(a schedAct) bool {
 		switch a.A {
-		case "pick":
-			if th := threads[a.T]; th != nil && th.phase != 0 {
-				return true // the thread is busy: not a step of this schedule
+		case "add":
+			if holder != nil {
+				return true
 			}
-			th := &schedThread{arrive: make(chan string, 1), rel: make(chan struct{})}
-			threads[a.T] = th
-			before := queueLen()
-			ready := make(chan struct{})
-			go func() {
-				id := goid()
-				schedThreads.Store(id, th)
-				close(ready)
-				defer schedThreads.Delete(id)
-				defer func() {
-					if r := recover(); r != nil {
-						th.err = fmt.Errorf("panic: %v", r)
+			lines = append(lines, fmt.Sprintf("op add %d %d => %s", a.T, a.D, concErr(addDoc(a.D))))
+		case "hold":
+			if holder != nil {
+				return true
+			}
+			th := start([]string{adderStop}, func() error { return addDoc(a.D) })
+			switch n := wait(th, 20*time.Second); n {
+			case adderStop:
+				holder = th
+				spawned = nil
+				lines = append(lines, fmt.Sprintf("op hold %d %d => held", a.T, a.D))
+			case "":
+				lines = append(lines, fmt.Sprintf("op hold %d %d => done:%s", a.T, a.D, concErr(th.err)))
+			default:
+				lines = append(lines, "op panic HANG: the held add neither reached its yield point nor returned")
+				return false
+			}
+		case "spawn":
+			if holder == nil || len(spawned) >= 2 {
+				return true
+			}
+			sp := &spawnedOp{w: a.W, d: a.D}
+			switch a.W {
+			case "rotate":
+				sp.th = start(nil, func() error { st.VerifRotate(); return nil })
+			case "flush":
+				sp.th = start(nil, st.Flush)
+			case "add":
+				sp.th = start(nil, func() error { return addDoc(a.D) })
+			default:
+				return true
+			}
+			spawned = append(spawned, sp)
+			what := a.W
+			if a.W == "add" {
+				what = fmt.Sprintf("add %d", a.D)
+			}
+			// the queue lock is held by the stopped adder: the operation must not get through
+			if wait(sp.th, 60*time.Millisecond) == "" {
+				sp.fin = true
+				lines = append(lines, fmt.Sprintf("op spawn %s => completed", what))
+			} else {
+				lines = append(lines, fmt.Sprintf("op spawn %s => blocked", what))
+			}
+		case "release":
+			if holder == nil {
+				return true
+			}
+			holder.rel <- struct{}{}
+			n := wait(holder, 20*time.Second)
+			h := holder
+			holder = nil
+			if n != "" {
+				lines = append(lines, "op panic HANG: the released add did not return")
+				return false
+			}
+			lines = append(lines, fmt.Sprintf("op release %d => %s", a.T, concErr(h.err)))
+			for _, sp := range spawned {
+				if !sp.fin {
+					if wait(sp.th, 20*time.Second) != "" {
+						lines = append(lines, "op panic HANG: "+sp.w+" started during an add never finished")
+						return false
 					}
-					th.arrive <- ""
-				}()
-				th.err = st.AddWithID(a.D, []float32{1, 2}, "", nil)
-			}()
-			<-ready
-			switch wait(th) {
-			case "memtableQueue:addWithID:unlocked":
-				th.phase = 1
-				rot := 0
-				if queueLen() > before {
-					rot = 1
 				}
-				lines = append(lines, fmt.Sprintf("op pick %d %d %d => ok", a.T, a.D, rot))
-			case "HANG":
-				lines = append(lines, "op panic HANG in pick")
-				return false
-			default:
-				th.phase = 0
-				lines = append(lines, fmt.Sprintf("op panic add returned before its first yield point: %v", th.err))
-				return false
+				if sp.w == "add" {
+					lines = append(lines, fmt.Sprintf("op spawned add %d => %s", sp.d, concErr(sp.th.err)))
+				} else if sp.th.err != nil {
+					lines = append(lines, fmt.Sprintf("op panic spawned %s failed: %v", sp.w, sp.th.err))
+				}
 			}
-		case "check":
-			th := threads[a.T]
-			if th == nil || th.phase != 1 {
-				return true
-			}
-			th.rel <- struct{}{}
-			switch wait(th) {
-			case "memtable:addWithID:checked":
-				th.phase = 2
-				lines = append(lines, fmt.Sprintf("op check %d => ok", a.T))
-			case "":
-				th.phase = 0
-				lines = append(lines, fmt.Sprintf("op check %d => %s", a.T, concErr(th.err)))
-			default:
-				lines = append(lines, "op panic HANG in check")
-				return false
-			}
-		case "write":
-			th := threads[a.T]
-			if th == nil || th.phase != 2 {
-				return true
-			}
-			th.rel <- struct{}{}
-			switch wait(th) {
-			case "":
-				th.phase = 0
-				lines = append(lines, fmt.Sprintf("op write %d => %s", a.T, concErr(th.err)))
-			default:
-				lines = append(lines, "op panic HANG in write")
-				return false
-			}
+			spawned = nil
+			// collapse the model's candidate orders right away
+			lines = append(lines, "op state => "+state())
 		case "rotate":
+			if holder != nil {
+				return true
+			}
 			st.VerifRotate()
 			lines = append(lines, "op rotate => ok")
 		case "flush":
+			if holder != nil {
+				return true
+			}
 			lines = append(lines, "op flush => "+concErr(st.Flush()))
+		case "fsnap":
+			if holder != nil || flPhase[a.T] != 0 {
+				return true
+			}
+			th := start([]string{"flushMemtables:next", "flushMemtables:flushed"}, st.Flush)
+			switch n := wait(th, 20*time.Second); n {
+			case "flushMemtables:next":
+				flushers[a.T], flPhase[a.T] = th, 1
+				lines = append(lines, fmt.Sprintf("op fsnap %d => parked", a.T))
+			case "":
+				lines = append(lines, fmt.Sprintf("op fsnap %d => empty", a.T))
+			default:
+				lines = append(lines, "op panic HANG in fsnap: "+n)
+				return false
+			}
+		case "fwrite":
+			if holder != nil || flPhase[a.T] != 1 {
+				return true
+			}
+			th := flushers[a.T]
+			th.rel <- struct{}{}
+			if n := wait(th, 20*time.Second); n != "flushMemtables:flushed" {
+				lines = append(lines, fmt.Sprintf("op panic flusher did not reach flushMemtables:flushed: %q %v", n, th.err))
+				delete(flushers, a.T)
+				flPhase[a.T] = 0
+				return false
+			}
+			flPhase[a.T] = 2
+			lines = append(lines, fmt.Sprintf("op fwrite %d => parked", a.T))
+		case "fdrop":
+			if holder != nil || flPhase[a.T] != 2 {
+				return true
+			}
+			th := flushers[a.T]
+			th.rel <- struct{}{}
+			switch n := wait(th, 20*time.Second); n {
+			case "flushMemtables:next":
+				flPhase[a.T] = 1
+				lines = append(lines, fmt.Sprintf("op fdrop %d => parked", a.T))
+			case "":
+				delete(flushers, a.T)
+				flPhase[a.T] = 0
+				if th.err != nil {
+					lines = append(lines, fmt.Sprintf("op panic directed Flush failed: %v", th.err))
+					return false
+				}
+				lines = append(lines, fmt.Sprintf("op fdrop %d => done", a.T))
+			default:
+				lines = append(lines, "op panic HANG in fdrop: "+n)
+				return false
+			}
 		case "state":
+			if holder != nil {
+				return true
+			}
 			lines = append(lines, "op state => "+state())
 		}
 		return true
@@ -857,62 +995,61 @@ func execSched(c *schedCase) []string {
 			break
 		}
 	}
-	// drain: let every pending add finish, then compare the final bookkeeping
 	if ok {
-		var ts []int
-		for t := range threads {
-			ts = append(ts, t)
+		// drain: finish the held add and every parked flusher, then compare the final bookkeeping
+		if holder != nil {
+			ok = step(schedAct{A: "release", T: 1})
 		}
-		sort.Ints(ts)
-		for _, t := range ts {
-			if threads[t].phase == 1 {
-				ok = ok && step(schedAct{A: "check", T: t})
-			}
-			if ok && threads[t].phase == 2 {
-				ok = ok && step(schedAct{A: "write", T: t})
+		var fs []int
+		for f := range flushers {
+			fs = append(fs, f)
+		}
+		sort.Ints(fs)
+		for _, f := range fs {
+			for ok && flPhase[f] != 0 {
+				if flPhase[f] == 1 {
+					ok = step(schedAct{A: "fwrite", T: f})
+				} else {
+					ok = step(schedAct{A: "fdrop", T: f})
+				}
 			}
 		}
 		if ok {
 			step(schedAct{A: "state"})
 		}
-	} else {
-		// release whatever is still blocked so that no goroutine leaks
-		for _, th := range threads {
-			for th.phase != 0 {
-				select {
-				case th.rel <- struct{}{}:
-				case n := <-th.arrive:
-					if n == "" {
-						th.phase = 0
-					}
-				case <-time.After(2 * time.Second):
-					th.phase = 0
-				}
-			}
+	}
+	lines = append(lines, "end")
+	if lf := os.Getenv("C11_SCHED_LOG"); lf != "" { // debugging aid: the request stream of every schedule
+		if f, err := os.OpenFile(lf, os.O_APPEND|os.O_CREATE|os.O_WRONLY, 0o644); err == nil {
+			f.WriteString(strings.Join(lines, "\n") + "\n")
+			f.Close()
 		}
 	}
-	return append(lines, "end")
+	return lines
 }
 
 func nonTrivialSched(lines, replies []string) bool {
-	// some rotation or flush ran while an add was between its pick and its write
-	pending := 0
+	// some operation was started while an add was stopped inside its region, or an add / rotation
+	// ran while a flusher was parked between its regions
+	parked := 0
 	for _, l := range lines {
 		f := strings.Fields(l)
 		if len(f) < 2 {
 			continue
 		}
 		switch f[1] {
-		case "pick":
-			pending++
-		case "write":
-			pending--
-		case "check":
-			if !strings.HasSuffix(l, "=> ok") {
-				pending--
+		case "spawn":
+			return true
+		case "fsnap":
+			if strings.HasSuffix(l, "parked") {
+				parked++
 			}
-		case "rotate", "flush":
-			if pending > 0 {
+		case "fdrop":
+			if strings.HasSuffix(l, "done") {
+				parked--
+			}
+		case "add", "rotate", "hold":
+			if parked > 0 {
 				return true
 			}
 		}
@@ -940,10 +1077,10 @@ func init() {
 	})
 	register(&core.Typed[schedCase]{
 		StreamName: "sched", Prop: "C11",
-		RuleText: "directed schedules of up to three adder threads (pick / frozen-check / write regions of memtableQueue.addWithID, blocked at verifPoint yield points) against Rotate and Flush on a real store with one-document memtables, replayed on the Lean rotation model and compared on every `state` (per-memtable document ids, documents counted in segments); non-trivial when a rotation or flush ran while an add was between pick and write",
+		RuleText: "directed schedules on a real store with one-document memtables: an adder stopped at the yield point after memtable.addWithID's frozen check (inside the queue-locked region) while Rotate / Flush / another add are started (they must stay blocked), flushers stepped through flushMemtables:next / :flushed while adds and rotations run, complete adds / rotations / flushes; replayed on the Lean rotation model (every order of the blocked operations is a candidate) and compared on every `state` (document ids per queue memtable, documents counted in segments); non-trivial when an operation was started against a stopped adder or an add / rotation ran while a flusher was parked between its regions",
 		NCases: func(tier string) int {
 			if tier == "thorough" {
-				return 1500
+				return 600
 			}
 			return 120
 		},
